@@ -207,10 +207,26 @@ func checkText(c TextCase) *vk.Violation {
 }
 
 var reg = vk.Registry{
-	"rune": func(raw json.RawMessage) *vk.Violation { var c RuneCase; _ = json.Unmarshal(raw, &c); return checkRune(c) },
-	"pair": func(raw json.RawMessage) *vk.Violation { var c PairCase; _ = json.Unmarshal(raw, &c); return checkPair(c) },
-	"seq":  func(raw json.RawMessage) *vk.Violation { var c SeqCase; _ = json.Unmarshal(raw, &c); return checkSeq(c) },
-	"text": func(raw json.RawMessage) *vk.Violation { var c TextCase; _ = json.Unmarshal(raw, &c); return checkText(c) },
+	"rune": func(raw json.RawMessage) *vk.Violation {
+		var c RuneCase
+		_ = json.Unmarshal(raw, &c)
+		return checkRune(c)
+	},
+	"pair": func(raw json.RawMessage) *vk.Violation {
+		var c PairCase
+		_ = json.Unmarshal(raw, &c)
+		return checkPair(c)
+	},
+	"seq": func(raw json.RawMessage) *vk.Violation {
+		var c SeqCase
+		_ = json.Unmarshal(raw, &c)
+		return checkSeq(c)
+	},
+	"text": func(raw json.RawMessage) *vk.Violation {
+		var c TextCase
+		_ = json.Unmarshal(raw, &c)
+		return checkText(c)
+	},
 }
 
 func TestReplay(t *testing.T) { vk.RunReplay(t, reg) }
